@@ -47,6 +47,8 @@ def backend_cases(chk, n_cases, exprs, expected, meta, degenerate=False):
                 u = np.eye(2, dtype=complex)
             props = [(gint(rng, (d2, d2), -1, 1), gint(rng, (d2, d2), -1, 1)) for _ in range(n)]
         rho0 = gint(rng, (d2,), -2, 2)
+        if not rho0.any():
+            rho0[0] = 1
         info = {"n": n, "dkmax": dkmax, "rect": rect, "family": "causal" if causal else "generic"}
         # --- TEMPO: every step
         try:
